@@ -380,16 +380,19 @@ class TOFUDatabase:
         if not isinstance(data["hosts"], dict):
             raise ValueError("Invalid TOML: 'hosts' must be a table")
 
-        # Clear database if not merging
-        if not merge:
-            self.clear()
-
         added_count = 0
         updated_count = 0
         skipped_count = 0
 
+        # The whole import runs in one transaction on one connection: it is
+        # committed at the end or, on any error, not at all.
         with self._connection() as conn:
             cursor = conn.cursor()
+
+            # Replace mode: clear inside the same transaction, so a failing
+            # import cannot leave the store empty
+            if not merge:
+                cursor.execute("DELETE FROM known_hosts")
 
             for key, host_data in data["hosts"].items():
                 # Validate required fields
@@ -424,8 +427,14 @@ class TOFUDatabase:
                         f"has invalid fingerprint format: {fingerprint}"
                     )
 
-                # Check if host already exists
-                existing = self.get_host_info(hostname, port)
+                # Check if host already exists (on this connection, so rows
+                # added earlier in this import are seen)
+                cursor.execute(
+                    "SELECT fingerprint FROM known_hosts "
+                    "WHERE hostname = ? AND port = ?",
+                    (hostname, port),
+                )
+                existing = cursor.fetchone()
 
                 if existing is None:
                     # New host - add it
